@@ -3,7 +3,11 @@ EXTENDS DcPipe, TraceLib
 VARIABLE l
 IsEvent(e) == l <= NRec /\ Rec[l].ev = e /\ l' = l + 1
 TInit == PInit /\ l = 1
-T_Reset == IsEvent("reset") /\ LET p == Rec[l].plan IN Reset(p.mode, IF p.mode = "vanish" THEN p.vanish_at_us ELSE None)
+T_Reset == IsEvent("reset") /\ LET p == Rec[l].plan IN
+             Reset(p.mode, IF p.mode = "vanish" /\ ~Has(p, "vanish_after_server_packets") THEN p.vanish_at_us ELSE None)
+T_Vanished == IsEvent("vanished") /\ Vanished(Rec[l].t)
+T_WStartFin == IsEvent("wstart_fin") /\ LET x == Rec[l] IN WriteStartFin(x.pipe, x.off, x.len)
+T_RunEnd == IsEvent("run_end") /\ RunEnd
 T_Open == IsEvent("open") /\ LET x == Rec[l] IN Open(x.k, x.t, x.client_mode, x.server_mode)
 T_WStart == IsEvent("wstart") /\ LET x == Rec[l] IN WriteStart(x.pipe, x.off, x.len)
 T_W == IsEvent("w") /\ WriteDone(Rec[l].pipe, Rec[l].off)
@@ -12,14 +16,15 @@ T_Fin == IsEvent("wfin") /\ UNCHANGED pvars
 T_R == IsEvent("r") /\ LET x == Rec[l] IN Read(x.pipe, x.off, x.len, x.ok)
 T_Eos == IsEvent("eos") /\ Eos(Rec[l].pipe, Rec[l].total)
 T_RErr == IsEvent("rerr") /\ Error(Rec[l].pipe, Rec[l].t)
-T_WErr == IsEvent("werr") /\ ErrorJustified(Rec[l].pipe, Rec[l].t) /\ UNCHANGED pvars
+T_WErr == IsEvent("werr") /\ ErrorJustified(Rec[l].pipe, Rec[l].t)
+          /\ IF Rec[l].kind = "header" THEN GaveUp(StreamOf(Rec[l].pipe)) ELSE UNCHANGED pvars
 T_Dropped == IsEvent("dropped") /\ Dropped(Rec[l].pipe)
 T_ClientDone == IsEvent("client_done") /\ ClientDone(Rec[l].k)
 \* connect failures are justified like errors of the stream's request pipe
-T_ConnectErr == IsEvent("connect_err") /\ ErrorJustified(2 * Rec[l].k, Rec[l].t) /\ UNCHANGED pvars
+T_ConnectErr == IsEvent("connect_err") /\ ErrorJustified(2 * Rec[l].k, Rec[l].t) /\ GaveUp(Rec[l].k)
 T_Other == (IsEvent("server_done") \/ IsEvent("server_head_err") \/ IsEvent("end")) /\ UNCHANGED pvars
 \* no action for: panic, stall
 TNext == T_Reset \/ T_Open \/ T_WStart \/ T_W \/ T_FinStart \/ T_Fin \/ T_R \/ T_Eos \/ T_RErr \/ T_WErr \/ T_Dropped \/ T_ClientDone
-         \/ T_ConnectErr \/ T_Other
+         \/ T_ConnectErr \/ T_Other \/ T_Vanished \/ T_WStartFin \/ T_RunEnd
 TSpec == TInit /\ [][TNext]_<<pvars, l>>
 =============================================================================
